@@ -14,7 +14,9 @@ RULE = ('(1) encoder round trip: code points (sampled in quick, the whole '
         '3 quote styles; (2) decoder model: sequences of plain characters, '
         'well-formed escapes of every documented form and look-alikes, in '
         '\'..\' and "..", and verbatim in `..`; (3) integer literals up to '
-        '4000 digits, decimals up to 400+400 digits; (4) identifier-shaped '
+        '4000 digits (beyond the interpreter limit of 4300 digits up to '
+        '8191: refused as a lexical error or exact), decimals up to 400+400 '
+        'digits; (4) identifier-shaped '
         'words incl. reserved words, operator words and leading '
         'underscores; (5) the same word parsed in one process by engines '
         'whose tables have more / fewer identifier-like operators, in '
@@ -154,7 +156,7 @@ def decode(body):
             name = body[i + 3:j]
             try:
                 out.append(unicodedata.lookup(name))
-            except KeyError:
+            except (KeyError, UnicodeError, ValueError):
                 return ERR
             i = j + 1
         else:
@@ -221,6 +223,27 @@ def check_number(run, case):
     digits = len(text.replace('.', ''))
     run.case(case, digits > 18 or isfloat, cls=['number', (
         'float' if isfloat else 'int')])
+    if not isfloat and digits > 4300:
+        # beyond the interpreter's int/str conversion limit: the numeral may
+        # be refused as a lexical error, but if it is accepted it denotes
+        # the integer it spells (pieces of 4000 digits keep the harness
+        # itself below the limit)
+        exp = 0
+        for i in range(0, len(text), 4000):
+            piece = text[i:i + 4000]
+            exp = exp * 10 ** len(piece) + int(piece)
+        if out[0] != 'ok':
+            if not isinstance(out[1], yexc.YaqlLexicalException):
+                run.violate('number-rejected', case, '%s... raised %s' % (
+                    text[:40], type(out[1]).__name__), exc=out[1],
+                    input_class='int>4300')
+        elif out[1] != exp or type(out[1]) is not int:
+            run.violate('number-denotes-other-value', case,
+                        'a numeral of %d digits denotes another integer '
+                        '(%d bits instead of %d)' % (
+                            digits, out[1].bit_length(), exp.bit_length()),
+                        input_class='int>4300')
+        return
     exp = float(text) if isfloat else int(text)
     if out[0] != 'ok':
         run.violate('number-rejected', case, '%s raised %s: %s' % (
@@ -328,7 +351,9 @@ REPLAY = {'roundtrip': check_roundtrip, 'decode': check_decode,
 
 # --------------------------------------------------------------------------
 
-tricky = st.sampled_from(list('\'"`\\') + ['\\\\', '\\x4', '\\u12', '\\N{',
+tricky = st.sampled_from(list('\'"`\\') + ['\ud83d\ude00', '\ud83d', '\ude00',
+                                           '\udbff\udfff', '\\ud83d\\ude00',
+                                           '\\\\', '\\x4', '\\u12', '\\N{',
                                            '\\8', '\\n', '\n', '\t', '\x00',
                                            ' ', 'é', '\U0001d4b3', 'a', '0',
                                            'x41', '}', '{', '\\`', "\\'"])
@@ -337,7 +362,8 @@ rt_strings = st.one_of(
     st.text(max_size=6),
     st.lists(st.one_of(tricky, st.characters()), max_size=6).map(''.join))
 
-ESCAPES = ['\\\\', "\\'", '\\"', '\\a', '\\b', '\\f', '\\n', '\\r', '\\t',
+ESCAPES = ['\\ud83d\\ude00', '\\ud83d', '\\ude00', '\\udbff\\udfff',
+           '\\\\', "\\'", '\\"', '\\a', '\\b', '\\f', '\\n', '\\r', '\\t',
            '\\v', '\\0', '\\7', '\\12', '\\101', '\\377', '\\400', '\\777',
            '\\18', '\\x41', '\\xe9', '\\x00', '\\xFF', '\\u0041', '\\u00e9',
            '\\ud7ff', '\\uffff', '\\U00000041', '\\U0001d4b3', '\\U0010FFFF',
@@ -346,7 +372,8 @@ ESCAPES = ['\\\\', "\\'", '\\"', '\\a', '\\b', '\\f', '\\n', '\\r', '\\t',
 LOOKALIKES = ['\\x4', '\\x', '\\u12', '\\u', '\\U0001', '\\N', '\\N{', '\\8',
               '\\9', '\\q', '\\d', '\\ ', '\\(', '\\N}', '\\xg1', '\\x4g',
               '\\u12g4', '\\U00110000', '\\N{nope}', '\\N{}x', '\\`', '\\$']
-PLAIN = ['a', 'b', ' ', '1', 'é', '\U0001d4b3', '{', '}', '$', '#']
+PLAIN = ['a', 'b', ' ', '1', 'é', '\U0001d4b3', '{', '}', '$', '#',
+         '\ud83d', '\ude00', '\ud83d\ude00']
 
 decode_bodies = st.lists(
     st.one_of(st.sampled_from(ESCAPES), st.sampled_from(ESCAPES),
@@ -355,7 +382,12 @@ decode_bodies = st.lists(
 
 digits = st.text('0123456789', min_size=1, max_size=30)
 numbers = st.one_of(
-    digits, st.integers(1, 4000).flatmap(
+    digits, st.sampled_from([4299, 4300, 4301, 4500, 5120, 6000, 8191]).map(
+        lambda n: '9' * n),
+    st.integers(4301, 7000).flatmap(
+        lambda n: st.text('0123456789', min_size=n, max_size=n).map(
+            lambda t: '1' + t[1:])),
+    st.integers(1, 4000).flatmap(
         lambda n: st.text('0123456789', min_size=n, max_size=n)),
     st.builds(lambda a, b: a + '.' + b, digits, digits),
     st.builds(lambda a, b: a + '.' + b,
